@@ -58,10 +58,17 @@ def run(ctx):
     nproc = 4 if ctx.quick else 8
     chunks = [beh[i::nproc] for i in range(nproc)]
     with ThreadPoolExecutor(nproc) as ex:
-        results = list(ex.map(lambda ch: ctx.run_vh(["c07"], dict(systems=systems, behaviours=ch), timeout=3400) if ch else [], chunks))
+        # chunk 0 also runs the simultaneous-Prove rounds (same process, same systems)
+        results = list(ex.map(lambda ic: ctx.run_vh(["c07"], dict(systems=systems, behaviours=ic[1], concurrentRounds=(2 if ctx.quick else 10) if ic[0] == 0 else 0, concurrentWidth=6),
+                                                    timeout=3400) if ic[1] else [], enumerate(chunks)))
+    ctx.cov["concurrent_prove_rounds"] = (2 if ctx.quick else 10) * len(systems)
     total = 0
     for res in results:
         for x in res:
+            if x.get("kind") == "prover-concurrent":
+                if not x["ok"]:
+                    ctx.violation("proving system: %s" % x.get("detail"), dict(kind="c07", cases=x.get("case")))
+                continue
             total += 1
             if not x["ok"]:
                 ctx.violation("proving system: %s: %s" % (x["id"], x.get("detail")), dict(kind="c07", cases=x.get("case")))
